@@ -2,7 +2,8 @@
    Model: C30/Model.v (wild: init_fini_priority, one secondary section per priority, parts by alignment,
    .ctors/.dtors reversed; GNU ld: SORT_BY_INIT_PRIORITY with its name tie-break, then the plain sections). *)
 From Coq Require Import ZArith List Bool.
-From WV Require Import C30.Model C30.Proofs.
+From WV Require Import C30.Model C30.Proofs C30.Extent C30.ExtentProofs.
+From Coq Require Import Sorting.Permutation.
 Import ListNotations.
 Open Scope Z_scope.
 
@@ -59,3 +60,29 @@ Example C30_hypotheses_satisfiable :
             S true (Some [54; 53; 48; 51; 53]) 8 [4; 5]; S true None 8 [6; 7]] in    (* .ctors.65035 (= 500)  .ctors *)
   Forall (fun s => good 8 s = true) l /\ wild_order l = [2; 3; 5; 4; 1; 7; 6] /\ gnu_order l = [2; 3; 5; 4; 1; 7; 6].
 Proof. split; [repeat constructor|vm_compute; split; reflexivity]. Qed.
+
+(* The extent of the output section (what DT_INIT_ARRAYSZ / sh_size / __init_array_start..end say).  For every start
+   position, every list of per-priority parts (any power-of-two alignments, any positive sizes) and every order in which
+   the parts are merged into the section record (wild merges in creation order, not layout order): the section starts
+   exactly at its first part, every part lies inside it, it ends where the last part ends, and memory size = file size. *)
+Theorem C30_section_covers_every_entry : forall p0 bs ids,
+  (forall b, In b bs -> 0 < snd b) ->
+  let s := off (primary p0 bs) in
+  Permutation ids (place s bs) ->
+  let sec := section p0 bs ids in
+  off sec = s /\
+  (forall r, In r (place s bs) -> off sec <= off r /\ rend r <= rend sec) /\
+  rend sec = endp s bs /\
+  msize sec = size sec /\
+  match place s bs with r :: _ => off r = off sec | [] => True end.
+Proof. exact section_covers. Qed.
+Print Assumptions C30_section_covers_every_entry.
+
+(* the pinned tree (sizes summed, primary aligned to 8 only) is refuted: a lone 16-aligned part placed after a position
+   that is 8 mod 16 — the section [8,24) starts at a padding word and stops before the last entry [24,32) (repaired) *)
+Theorem C30_refuted_sum_of_part_sizes :
+  let parts := place (off (primary_old 8)) [(4%nat, 16)] in
+  let sec := section_old 8 parts in
+  off sec = 8 /\ rend sec = 24 /\ map off parts = [16] /\ map rend parts = [32].
+Proof. exact old_section_misses_last_entry. Qed.
+Print Assumptions C30_refuted_sum_of_part_sizes.
